@@ -17,6 +17,11 @@ pub(super) fn validate_query_against_schema(
     schema: &Schema,
     query: &Query,
 ) -> Result<(), FrontendError> {
+    if query.root_field.name.as_ref() == TYPENAME_META_FIELD {
+        // The root of a query must be an edge: an entry point that produces the starting vertices.
+        return Err(FrontendError::PropertyMetaFieldUsedAsEdge(TYPENAME_META_FIELD.to_string()));
+    }
+
     let mut path = vec![];
     validate_field(
         schema,
